@@ -626,8 +626,49 @@ fn cbor_case() -> impl Strategy<Value = EvalCase> {
     })
 }
 
+/// integer -> primitive conversions and mixed operations with a u128, values steered to one,
+/// two, three and four 32-bit words and to the edges of every primitive type; anchored to num-bigint
+fn prim_case() -> impl Strategy<Value = EvalCase> {
+    (0u8..12, any::<u128>(), any::<u128>(), any::<bool>(), 0u32..130).prop_map(|(shape, raw, mraw, neg, k)| {
+        use num_traits::ToPrimitive;
+        let v: BigUint = match shape {
+            0 => BigUint::from(raw as u32),
+            1 => BigUint::from(raw as u64),
+            2 => BigUint::from(raw >> 32), // up to 96 bits: three 32-bit words
+            3 => BigUint::from(raw >> 40),
+            4 => BigUint::one() << k,
+            5 => (BigUint::one() << k) - 1u8,
+            6 => (BigUint::one() << k) + 1u8,
+            7 => BigUint::from(raw),
+            8 => BigUint::from(raw) + (BigUint::one() << 128usize),
+            9 => BigUint::from(u64::MAX) + BigUint::from(raw as u8),
+            10 => BigUint::from(u128::MAX) - BigUint::from(raw as u8),
+            _ => BigUint::from(i128::MAX as u128) + BigUint::from(raw as u8),
+        };
+        let x = if neg { -BigInt::from(v.clone()) } else { BigInt::from(v.clone()) };
+        let m = BigUint::from(mraw >> (mraw % 100));
+        let mp: u128 = m.to_u128().unwrap_or(u128::MAX) | 1;
+        let f = |o: Option<String>| o.unwrap_or_else(|| "-".to_string());
+        let expect = format!(
+            "{} {} {} {} {} {} {} {}",
+            f(x.to_u32().map(|t| t.to_string())),
+            f(x.to_i64().map(|t| t.to_string())),
+            f(x.to_u64().map(|t| t.to_string())),
+            f(x.to_i128().map(|t| t.to_string())),
+            f(x.to_u128().map(|t| t.to_string())),
+            f(x.to_u64().map(|t| t.to_string())), // usize = u64 on the hosts of every build here
+            hxu(&(&v & BigUint::from(mp))),
+            &v % BigUint::from(mp)
+        );
+        let bits = v.bits();
+        let label = if bits <= 32 { "int:to primitives (<= 32 bits)" } else if bits <= 64 { "int:to primitives (33-64 bits)" } else if bits <= 96 { "int:to primitives (65-96 bits: three 32-bit words)" } else if bits <= 128 { "int:to primitives (97-128 bits)" } else { "int:to primitives (> 128 bits)" };
+        EvalCase { line: format!("iprim {} {}", hx(&x), hxu(&m)), expect: Some(expect), kind: "eq".into(), label: label.into(), nontrivial: bits > 32 }
+    })
+}
+
 fn all_cases() -> impl Strategy<Value = EvalCase> {
     prop_oneof![
+        2 => prim_case(),
         2 => cbor_case(),
         3 => conv_case(),
         3 => mod_case(),
@@ -959,7 +1000,7 @@ fn run_batch(bins: &[(String, String)], cases: &[EvalCase], tag: &str) -> Result
 fn main() {
     let mut ck = Check::new(
         "C19",
-        "a deterministic case file (integer ring/division/gcd/bit/shift/pow/root/ilog/radix text/bytes/f32-f64 conversion (also next to rounding boundaries: mantissa, half bit and one sticky bit at every distance, anchored to round-to-nearest-even computed by the check)/modular ops (also products of residues shorter than the modulus with moduli whose length is a whole number of 32/64-bit words), decimal and binary float add/sub/mul/div/sqrt/print/parse/to_int/to_f64/base change, rational arithmetic/print/parse/to_f64, serde json + postcard + CBOR encodings (CBOR: structs as maps, decoded again with the map entries permuted / repeated / missing), decoding of round-tripped, mutated and arbitrary input) generated from the seed with the structured operand generators and evaluated by dv-eval compiled against dashu in N build configurations {native x86_64, force_bits=64 (generic), force_bits=32} × {std, no_std} × {debug assertions on, off}; outputs compared line by line across builds, integer/rational results anchored to num-bigint, log2 bounds checked as enclosures per build, decoded values checked for canonical form. Non-trivial: operands longer than one word, float/ratio/serde cases; distinct by case line.",
+        "a deterministic case file (integer ring/division/gcd/bit/shift/pow/root/ilog/radix text/bytes/conversion to every primitive integer type and mixed operations with a u128 (values of one to four 32-bit words)/f32-f64 conversion (also next to rounding boundaries: mantissa, half bit and one sticky bit at every distance, anchored to round-to-nearest-even computed by the check)/modular ops (also products of residues shorter than the modulus with moduli whose length is a whole number of 32/64-bit words), decimal and binary float add/sub/mul/div/sqrt/print/parse/to_int/to_f64/base change, rational arithmetic/print/parse/to_f64, serde json + postcard + CBOR encodings (CBOR: structs as maps, decoded again with the map entries permuted / repeated / missing), decoding of round-tripped, mutated and arbitrary input) generated from the seed with the structured operand generators and evaluated by dv-eval compiled against dashu in N build configurations {native x86_64, force_bits=64 (generic), force_bits=32} × {std, no_std} × {debug assertions on, off}; outputs compared line by line across builds, integer/rational results anchored to num-bigint, log2 bounds checked as enclosures per build, decoded values checked for canonical form. Non-trivial: operands longer than one word, float/ratio/serde cases; distinct by case line.",
     );
     let th = ck.thorough();
     let mut cfgs: Vec<Cfg> = QUICK_CFGS.to_vec();
